@@ -143,6 +143,8 @@ def _gen_op(rng, cfg):
         tab_size = M.resolve("lebedev", "degree", rng.choice(cfg["pool"]["lebedev"]))[1]
         return ["molctor", how, atnums, coords, _gen_rspec(rng), tab_size, rng.choice([0, 37, 5]), rng.random() < 0.5,
                 sorted(round(rng.uniform(0.2, 2.0), 2) for _ in range(2)), [rng.choice(cfg["pool"]["lebedev"]) for _ in range(3)]]
+    if kind == "moluse":
+        return ["moluse", rng.randrange(1000), rng.choice(["integrate", "interp", "interp", "atomic", "peek"]), rng.randrange(16)]
     if kind == "use":
         # 4th element: which optional arguments / which function the call gets (0 = the defaults) - the same method is
         # called on the same object with different options in either order
@@ -184,7 +186,7 @@ def _gen_op(rng, cfg):
 
 
 BASE_KINDS = [
-    ("ang", 10), ("atom", 7), ("pruned", 2), ("preset", 1), ("shell", 4), ("mol", 1.5), ("molctor", 1.5), ("use", 5), ("edit", 7),
+    ("ang", 10), ("atom", 7), ("pruned", 2), ("preset", 1), ("shell", 4), ("mol", 2.5), ("molctor", 1.5), ("moluse", 3.5), ("use", 5), ("edit", 7),
     ("reobserve", 3), ("drop", 1.5), ("restart", 2), ("tf_new", 2), ("tf_call", 6), ("coulomb", 3), ("perturb_rng", 1), ("invalid", 1.5),
 ]
 
@@ -727,7 +729,8 @@ def _op_mol(ctx, owner, op):
     coords = np.array([o.model["center"] for o in chosen], dtype=float)
     aim = BeckeWeights(order=3)(pts, coords, atnums, idx)
     keys = set().union(*[o.keys for o in chosen])
-    mo = ctx.add(owner, Obj("mol", oc[1], list(op), {"points": pts, "weights": atw * aim, "indices": idx}, keys, owner))
+    mo = ctx.add(owner, Obj("mol", oc[1], list(op), {"points": pts, "weights": atw * aim, "indices": idx, "atom_recipes": [o.recipe for o in chosen],
+                                                    "atnums": atnums.copy(), "store": bool(store), "coords": coords, "atom_objs": list(chosen)}, keys, owner))
     _observe(ctx, "mol", mo, "at-construction")
     ctx.log.add(ctx.step, "mol", "ok", hash_array(oc[1].points), hash_array(oc[1].weights))
 
@@ -897,6 +900,83 @@ def _op_use(ctx, owner, op):
         if hv[0] == "ok":
             m["held_interp"] = (keep["fn"], hq, hv[1].copy())
     ctx.log.add(ctx.step, "use", what, var, "ok", hash_array(oc[1]))
+
+
+def _op_moluse(ctx, owner, op):
+    """Use of a molecular grid assembled from live atomic grids: integration, interpolation (store=True), extraction of an
+    atomic grid, a look at all properties - equal to the same call on a molecular grid assembled from freshly built atomic
+    grids in a cold process; interpolating functions handed out earlier are held and re-evaluated."""
+    from grid.becke import BeckeWeights
+    from grid.molgrid import MolGrid
+
+    _, h, what, var = op
+    o = ctx.pick(owner, ("mol",), h)
+    if o is None or o.dirty or "atom_recipes" not in o.model or any(a.dirty or a.obj is None for a in o.model["atom_objs"]):
+        # (a stored molecular grid shares its atomic grid objects with the caller: once the caller has edited one of
+        # them, what the molecular grid answers is the caller's own doing)
+        ctx.log.add(ctx.step, "moluse", "skip")
+        return
+    m = o.model
+    if what == "interp" and not m["store"]:
+        what = "integrate"
+    mid = np.mean(m["coords"], axis=0)
+    f = _func_on(m["points"], mid) * (1.0 + 0.25 * (var % 3))
+    probe = mid + np.array([[0.1, 0.2, 0.3], [-0.4, 0.5, 0.2], [0.0, 0.0, 1.1], [0.9, -0.3, -0.2], [0.3, 0.3, -0.6]])
+    keep = {}
+
+    def live(gg, hold=False):
+        if what == "integrate":
+            return np.asarray(gg.integrate(f))
+        if what == "interp":
+            fn = gg.interpolate(f)
+            if hold:
+                keep["fn"] = fn
+            return np.asarray(fn(probe.copy()))
+        if what == "atomic":
+            ag = gg.get_atomic_grid(var % len(m["atnums"])) if var % 2 else gg[var % len(m["atnums"])]
+            return np.concatenate([np.ravel(ag.points), np.ravel(ag.weights)])
+        for nm in sorted(n for n in dir(type(gg)) if not n.startswith("_") and isinstance(getattr(type(gg), n, None), property)):
+            getattr(gg, nm)
+        return np.zeros(1)
+
+    for key in sorted(o.keys):
+        _note_key(ctx, owner, key)
+    had_fault = ctx.store.active()
+    mark = ctx.mark()
+    oc = _outcome(lambda: live(o.obj, hold=True))
+    fired = ctx.fired_since(mark)
+    held = m.get("held_interp")
+    if held is not None and not had_fault and not fired:
+        ho = _outcome(lambda: np.asarray(held[0](held[1].copy())))
+        if ho[0] == "ok" and (ho[1].shape != held[2].shape or not M.close(ho[1], held[2], rtol=1e-12)):
+            ctx.violate("held-result-changed", "moluse-interp", "mol", "an interpolating function returned by an earlier MolGrid.interpolate() call gives other values after later calls on the same molecular grid")
+        elif ho[0] == "raise":
+            ctx.violate("held-result-changed", "moluse-interp", "mol:raise", f"an interpolating function returned earlier by MolGrid.interpolate() now raises {ho[1]!r}")
+        ctx.probes.hit("held-molecular-interpolant-re-evaluated")
+    with _Cold(ctx):
+        rc = _outcome(lambda: live(MolGrid(m["atnums"].copy(), [_build(ctx, r) for r in m["atom_recipes"]], BeckeWeights(order=3), store=m["store"])))
+    ctx.probes.hit("reference-execution")
+    if oc[0] == "raise":
+        if fired or had_fault:
+            ctx.log.add(ctx.step, "moluse", what, "raise-under-fault", type(oc[1]).__name__)
+            return
+        if rc[0] == "raise" and type(rc[1]) is type(oc[1]):
+            ctx.log.add(ctx.step, "moluse", what, "raise-same-as-reference", type(oc[1]).__name__)
+            return
+        ctx.violate("unexpected-raise", "moluse-" + what, type(oc[1]).__name__, f"MolGrid {what} raised {oc[1]!r} but the cold reference did not")
+        return
+    if rc[0] == "raise":
+        ctx.log.add(ctx.step, "moluse", what, "reference-raised")
+        return
+    if np.shape(oc[1]) != np.shape(rc[1]) or not M.close(oc[1], rc[1], rtol=1e-9):
+        ctx.violate("use", "moluse-" + what, "mol", f"MolGrid {what} differs from the same call on a molecular grid assembled in a cold fault-free process")
+    if what == "interp" and "fn" in keep and not (fired or had_fault):
+        hq = probe + 0.013
+        hv = _outcome(lambda: np.asarray(keep["fn"](hq.copy())))
+        if hv[0] == "ok":
+            m["held_interp"] = (keep["fn"], hq, hv[1].copy())
+    ctx.probes.hit("molecular-grid-used:" + what)
+    ctx.log.add(ctx.step, "moluse", what, var, "ok", hash_array(oc[1]))
 
 
 def _apply_edit(arr, how):
@@ -1257,7 +1337,7 @@ def _op_heal(ctx, owner, op):
 
 OPS = {
     "ang": _op_construct, "atom": _op_construct, "pruned": _op_construct, "preset": _op_construct,
-    "shell": _op_shell, "mol": _op_mol, "molctor": _op_molctor, "use": _op_use, "edit": _op_edit, "reobserve": _op_reobserve, "drop": _op_drop,
+    "shell": _op_shell, "mol": _op_mol, "molctor": _op_molctor, "use": _op_use, "moluse": _op_moluse, "edit": _op_edit, "reobserve": _op_reobserve, "drop": _op_drop,
     "restart": _op_restart, "tf_new": _op_tf_new, "tf_call": _op_tf_call, "coulomb": _op_coulomb,
     "invalid": _op_invalid, "perturb_rng": _op_perturb_rng, "arm": _op_arm, "heal": _op_heal,
 }
@@ -1530,7 +1610,7 @@ def _simpler_ops(op):
             yield ["atom", op[1], op[2], op[3], 0, op[5]]
     if k == "edit" and op[3] != "zero":
         yield ["edit", op[1], op[2], "zero"]
-    if k in ("shell", "use", "edit", "reobserve", "tf_call", "mol") and op[1] != 0:
+    if k in ("shell", "use", "moluse", "edit", "reobserve", "tf_call", "mol") and op[1] != 0:
         yield [k, 0] + list(op[2:])
     if k == "tf_call" and op[3] != ["range", 2]:
         yield ["tf_call", op[1], op[2], ["range", 2]] + list(op[4:])
